@@ -44,6 +44,17 @@ impl ElemKind {
             ElemKind::UnitTy => "()",
         }
     }
+    /// Source text and model value of three literals of this element type (`None`: the type has
+    /// no literal syntax). Used by the `looplit` helper.
+    pub fn literals(self) -> Option<[(&'static str, crate::model::MVal); 3]> {
+        use crate::model::MVal;
+        Some(match self {
+            ElemKind::U8 | ElemKind::U32 | ElemKind::U64 => [("1", MVal::Int(1)), ("2", MVal::Int(2)), ("3", MVal::Int(3))],
+            ElemKind::Str => [("\"la\"", MVal::Str("la".into())), ("\"lb\"", MVal::Str("lb".into())), ("\"lc\"", MVal::Str("lc".into()))],
+            ElemKind::F64 => [("1.5", MVal::F(1.5f64.to_bits())), ("2.5", MVal::F(2.5f64.to_bits())), ("3.5", MVal::F(3.5f64.to_bits()))],
+            _ => return None,
+        })
+    }
     pub fn suffix(self) -> &'static str {
         match self {
             ElemKind::U8 => "u8",
@@ -342,6 +353,9 @@ where
     pub find: F<fn(List<E>, E) -> u64>,
     pub forrebind: F<fn(List<E>) -> u64>,
     pub pluseq: F<fn(List<E>, List<E>) -> List<E>>,
+    pub indexgot: F<fn(List<E>, u64) -> Option<u64>>,
+    pub push5: F<fn(List<E>, E, E, E, E, E)>,
+    pub looplit: F<fn(List<E>, u64) -> u64>,
 }
 
 pub fn helper_source() -> String {
@@ -409,8 +423,45 @@ fn forpush_{x}(l: List[{ty}], n: u64) -> u64 {{
     }}
     c
 }}
+fn push5_{x}(l: List[{ty}], a: {ty}, b: {ty}, c: {ty}, d: {ty}, e: {ty}) {{
+    l.push(a);
+    l.push(b);
+    l.push(c);
+    l.push(d);
+    l.push(e);
+}}
+fn indexgot_{x}(l: List[{ty}], i: u64) -> u64? {{
+    match l.get(i) {{
+        Some(v) => l.index(v),
+        None => None,
+    }}
+}}
 "#
         ));
+        match k.literals() {
+            Some([(a, _), (b, _), (c, _)]) => s.push_str(&format!(
+                r#"
+fn looplit_{x}(l: List[{ty}], n: u64) -> u64 {{
+    let acc = 0;
+    let i = 0;
+    while i < n {{
+        let t = [{a}, {b}];
+        t.push({c});
+        acc = acc + t.len();
+        for y in t {{ l.push(y); }}
+        i = i + 1;
+    }}
+    for z in [{a}, {b}] {{
+        let u = [{c}];
+        u.push(z);
+        acc = acc + u.len();
+    }}
+    acc
+}}
+"#
+            )),
+            None => s.push_str(&format!("fn looplit_{x}(l: List[{ty}], n: u64) -> u64 {{ 0 }}\n")),
+        }
     }
     s.push_str(
         r#"
@@ -470,6 +521,9 @@ where
             find: g!("find"),
             forrebind: g!("forrebind"),
             pluseq: g!("pluseq"),
+            indexgot: g!("indexgot"),
+            push5: g!("push5"),
+            looplit: g!("looplit"),
         }
     }
 }
@@ -895,6 +949,36 @@ where
                     let e = E::from_m(v, &self.inner);
                     Obs::OptNum(if script { f.index.call(l.own(), e) } else { l.index(&e).map(|x| x as u64) })
                 }
+                None => Obs::Skipped,
+            },
+            Op::PushMany { h, vals } => match self.h(*h, script) {
+                Some(l) => {
+                    let mut it = vals.iter().map(|m| E::from_m(m, &self.inner));
+                    if script && vals.len() == 5 {
+                        let (a, b, c, d, e) = (it.next().unwrap(), it.next().unwrap(), it.next().unwrap(), it.next().unwrap(), it.next().unwrap());
+                        f.push5.call(l.own(), a, b, c, d, e);
+                    } else {
+                        for e in it {
+                            l.push(e);
+                        }
+                    }
+                    Obs::Unit
+                }
+                None => Obs::Skipped,
+            },
+            Op::IndexGot { h, i } => match self.h(*h, script) {
+                Some(l) => Obs::OptNum(if script {
+                    f.indexgot.call(l.own(), *i)
+                } else {
+                    match l.get(*i as usize) {
+                        Some(e) => l.index(&e).map(|x| x as u64),
+                        None => None,
+                    }
+                }),
+                None => Obs::Skipped,
+            },
+            Op::LoopLit { h, n, .. } => match self.h(*h, true) {
+                Some(l) => Obs::Num(f.looplit.call(l.own(), *n)),
                 None => Obs::Skipped,
             },
             Op::Concat { a, b, dst, plus } => match (self.h(*a, script), self.h(*b, script)) {
